@@ -402,13 +402,13 @@ Section Carve.
   Qed.
 End Carve.
 
-(* the class constants computed as in the header for every class the library instantiates (4..256) and the two extra classes
-   the harness instantiates (4096, 8192): positive, ideal <= per-malloc, the slab holds per-malloc chunks *)
+(* the class constants computed as in the header for every class the library instantiates (4..256) and the three extra classes
+   the harness instantiates (2048, 4096, 8192): positive, ideal <= per-malloc, the slab holds per-malloc chunks *)
 Definition class_ok (chunk : Z) : bool :=
   let c := cfg_of_chunk chunk in
   (0 <? ideal c) && (ideal c <=? pm c) && (pm c * chunk <=? mbytes c) && (2 * ideal c <=? pm c).
 
-Lemma classes_ok : forallb class_ok [4; 8; 16; 32; 64; 128; 256; 4096; 8192] = true.
+Lemma classes_ok : forallb class_ok [4; 8; 16; 32; 64; 128; 256; 2048; 4096; 8192] = true.
 Proof. vm_compute. reflexivity. Qed.
 
 (* a request of N bytes (N a power of two, 1 <= N <= 256, as allocSmallBuffer<N> requires) is served by a class whose chunk
